@@ -187,6 +187,14 @@ func genScript(rng *fw.Rand, role Role, p wire.Params, o scriptOpts) *Script {
 			rest -= c
 		}
 		cuts = append(cuts, rest)
+		if !o.SmallOnly && rng.Intn(40) == 0 {
+			// a long run of empty continuation frames inside the message (legal, RFC 6455 5.4)
+			k := 1 + rng.Intn(len(cuts))
+			run := make([]int, 100+rng.Intn(150))
+			cuts = append(cuts[:k:k], append(run, cuts[k:]...)...)
+			nf = len(cuts)
+			s.feature("many-empty-fragments")
+		}
 		if nf > 1 {
 			s.feature("fragmented")
 		}
